@@ -76,6 +76,13 @@ def sim_configs(ss, rng, thorough):
         dur=6, dt=0.5, rand_seed=seed, verbose=0))
     add('sir-erdosrenyi-vaccine', lambda seed: ss.Sim(n_agents=100, diseases=ss.SIR(), networks=ss.ErdosRenyiNet(p=0.05),
         interventions=ss.routine_vx(start_year=2001, prob=0.3, product=ss.sir_vaccine(efficacy=0.8)), dur=6, rand_seed=seed, verbose=0))
+    def two_disease_tx(seed):      # one treatment product covering two co-circulating diseases (several table rows with eligible agents in one call) + a diagnostic with several rows
+        import pandas as pd
+        tx = ss.Tx(pd.DataFrame([dict(name='x', disease='sis', state='infected', efficacy=0.8, post_state='susceptible'), dict(name='x', disease='sir', state='infected', efficacy=0.7, post_state='recovered')]))
+        dx = ss.Dx(pd.DataFrame([('sir', s_, r_, p_) for s_, pp in (('susceptible', 0.1), ('infected', 0.8), ('recovered', 0.3)) for r_, p_ in (('positive', pp), ('negative', 1 - pp))], columns=['disease', 'state', 'result', 'probability']), hierarchy=['positive', 'negative'])
+        return ss.Sim(n_agents=150, diseases=[ss.SIS(init_prev=0.3), ss.SIR(init_prev=0.3, dur_inf=8)], networks=ss.RandomNet(), dur=6, rand_seed=seed, verbose=0,
+                      interventions=[ss.routine_triage(product=dx, prob=0.5, eligibility=lambda sim: sim.people.auids, name='tri'), ss.treat_num(product=tx, prob=0.8, max_capacity=40, eligibility=lambda sim: sim.diseases.sis.infected.uids.union(sim.diseases.sir.infected.uids), name='trt')])
+    add('two-disease-products', two_disease_tx)
     add('days-unit-mixingpool', lambda seed: ss.Sim(n_agents=100, diseases=ss.SIS(beta=ss.beta(0.02, 'day')), networks=ss.MixingPool(),
         unit='day', dt=2.0, start='2020-01-01', dur=20, rand_seed=seed, verbose=0))
     if thorough:
